@@ -44,6 +44,14 @@ ASSUMPTIONS = [
     '(tile_pixel_matrix(2**53 + 1, 1, 2**52, 1) has 2 tiles, compute_tile_positions_per_frame 3); sizes generated here are <= 24, '
     'so wrap-around of numpy integer spellings (np.uint8(200) + np.uint8(100)) is out of reach of this check as well',
 ]
+ASSUMPTIONS += [
+    'compute_plane_position_tiled_full accepts slice_index <= 0 (z = (slice_index - 1) * spacing; the regenerated planePositionZ says the same); '
+    'generated slice indices are 1..planes',
+    'SOP-class / non-TILED_FULL refusals and the TotalPixelMatrixFocalPlanes default of iter_tiled_full_frame_data are checked by the oracle only '
+    '(stream options-and-refusals); the number of segments / optical paths is an input of the model (channels)',
+    'injectivity of tile -> physical position is proved over exact rationals; float positions of distinct tiles may coincide for spacings below '
+    'the float resolution of the origin (not generated)',
+]
 MODELLED_NOT_VERIFIED = ['numpy meshgrid / stack / reshape ordering', 'itertools.product ordering', 'np.pad',
                          'PlanePositionSequence attribute storage', 'PixelToReferenceTransformer (affine map, C10)']
 
